@@ -34,6 +34,9 @@ class SegmentEnd:
       if isinstance(args[0], SegmentEnd):
         return
       elif isinstance(args[0], str):
+        if len(args[0]) == 0:
+          raise gfapy.FormatError("Cannot create a SegmentEnd "+
+            "from an empty string")
         self.__segment = args[0][0:-1]
         self.__end_type = args[0][-1]
       elif isinstance(args[0], list):
